@@ -1,4 +1,100 @@
-(* C01/Properties.v — property C01 (statements only). Under construction. *)
-From Common Require Import Bytes.
+(* C01/Properties.v — property C01: the state root equals the spec Merkle root of the state content.
+   Only statements, each closed by `exact <lemma>`, with Print Assumptions beneath.
+
+   root H ver ops  = InMemoryTrie.Hash() after the put/delete history ops on an empty trie of
+                     version ver (model of in_memory.go + pkg/trie/node, fix patches applied)
+   spec H ver ops  = spec_root_bytes H ver (map_of ops): hash of the encoding of the canonical
+                     radix-16 trie of the finite map the history denotes (last write wins, delete
+                     removes), built by longest common prefix and bucketing; H(0x00) for the empty map.
+   H is an arbitrary hash function (no property of H is used).
+
+   FULL STATEMENT (holds for the trie after the fix patches except for one input class):
+       forall H ver ops, root H ver ops = spec H ver ops.
+   It is refuted for histories that Delete the empty key "" while the root node has a non-empty
+   partial key (known finding delete-exhausted-key, pinned by Test_Trie_deleteAtNode):
+   C01_empty_key_delete_refuted.  C01_root_spec is the full statement outside that guard. *)
+From Common Require Import Bytes Blake2b.
 From Trie Require Import Nibbles Node Encode Model Spec.
-From C01 Require Import Model.
+From C01 Require Import Model Proofs.
+
+(* for every history that does not meet the guard: the node's root is the spec root of the map *)
+Theorem C01_root_spec_partial : forall H ver ops,
+  hits_delete_exhausted None ops = false -> root H ver ops = spec H ver ops.
+Proof. exact root_spec. Qed.
+Print Assumptions C01_root_spec_partial.
+
+(* in particular for every history without a Delete of the empty key, *)
+Theorem C01_root_spec_no_empty_delete : forall H ver ops,
+  no_empty_delete ops = true -> root H ver ops = spec H ver ops.
+Proof. exact root_spec_no_empty_delete. Qed.
+Print Assumptions C01_root_spec_no_empty_delete.
+
+(* and for every history of inserts and overwrites (TrieLayout.Root, host functions) *)
+Theorem C01_root_spec_puts : forall H ver ops,
+  puts_only ops = true -> root H ver ops = spec H ver ops.
+Proof. exact root_spec_puts. Qed.
+Print Assumptions C01_root_spec_puts.
+
+(* whatever order of inserts, overwrites and deletions produced the map *)
+Theorem C01_order_independent : forall H ver ops1 ops2,
+  hits_delete_exhausted None ops1 = false -> hits_delete_exhausted None ops2 = false ->
+  map_of ops1 = map_of ops2 -> root H ver ops1 = root H ver ops2.
+Proof. exact order_independent. Qed.
+Print Assumptions C01_order_independent.
+
+(* the empty state has root H(0x00) *)
+Theorem C01_empty : forall H ver, root H ver [] = H [n2b 0] /\ spec H ver [] = H [n2b 0].
+Proof. intros; split; reflexivity. Qed.
+Print Assumptions C01_empty.
+
+(* a value is stored by hash exactly in version 1 and when longer than 32 bytes *)
+Theorem C01_inline_rule : forall H ver v,
+  enc_value H ver v = (if must_be_hashed ver v then H v else scale_bytes v) /\
+  (must_be_hashed ver v = true <-> ver = V1 /\ 32 < length v).
+Proof. intros; split; [exact (inline_rule H ver v)|exact (must_be_hashed_iff ver v)]. Qed.
+Print Assumptions C01_inline_rule.
+
+(* the full statement fails inside the guard (model of the code with the fix patches) *)
+Theorem C01_empty_key_delete_refuted :
+  exists ops, root blake2b_256 V0 ops <> spec blake2b_256 V0 ops.
+Proof. exists witness_empty_delete. exact empty_delete_refuted. Qed.
+Print Assumptions C01_empty_key_delete_refuted.
+
+(* the pinned tree violated the statement outside the guard as well (fixed by
+   fixes/C02-delete-diverging-key and fixes/C02-delete-exhausted-key-nested) *)
+Theorem C01_pinned_refuted :
+  (exists ops, no_empty_delete ops = true /\ root_pinned blake2b_256 V0 ops <> spec blake2b_256 V0 ops) /\
+  (exists ops, no_empty_delete ops = true /\ root_pinned blake2b_256 V0 ops <> spec blake2b_256 V0 ops).
+Proof.
+  split; [exists witness_diverging_delete; exact pinned_diverging_delete_refuted
+         |exists witness_nested_delete; exact pinned_nested_delete_refuted].
+Qed.
+Print Assumptions C01_pinned_refuted.
+
+(* non-vacuity: a branch with a value and an inlined child; a delete that merges a branch back into
+   a leaf; a 64-nibble partial key; version 1 with a 33-byte value *)
+Example C01_nonvacuous_branch_with_value :
+  let ops := [Put [n2b 1] [n2b 170]; Put [n2b 1; n2b 2] [n2b 187]; Put [n2b 1; n2b 3] [n2b 204]] in
+  hits_delete_exhausted None ops = false /\
+  run ops = Some (Branch [0; 1]%nat (Some [n2b 170])
+                   (set_child no_children 0 (Some (Branch []%nat None
+                      (set_child (set_child no_children 2 (Some (Leaf [] [n2b 187]))) 3 (Some (Leaf [] [n2b 204]))))))).
+Proof. vm_compute. split; reflexivity. Qed.
+
+Example C01_nonvacuous_merge :
+  let ops := [Put [n2b 1; n2b 2] [n2b 187]; Put [n2b 1; n2b 3] [n2b 204]; Del [n2b 1; n2b 3]] in
+  hits_delete_exhausted None ops = false /\ run ops = Some (Leaf [0; 1; 0; 2]%nat [n2b 187]) /\
+  length (map_of ops) = 1%nat.
+Proof. vm_compute. repeat split; reflexivity. Qed.
+
+Example C01_nonvacuous_v1_hashed :
+  let v := repeat (n2b 7) 33 in
+  must_be_hashed V1 v = true /\ must_be_hashed V0 v = false /\ must_be_hashed V1 (repeat (n2b 7) 32) = false /\
+  root blake2b_256 V1 [Put [n2b 1] v] <> root blake2b_256 V0 [Put [n2b 1] v].
+Proof. vm_compute. repeat split; try reflexivity. discriminate. Qed.
+
+Example C01_nonvacuous_long_partial_key :
+  let k := repeat (n2b 17) 32 in
+  match run [Put k [n2b 1]] with Some (Leaf pk _) => length pk = 64%nat | _ => False end /\
+  length (header leaf_bits 63 64) = 2%nat.
+Proof. vm_compute. split; reflexivity. Qed.
